@@ -175,6 +175,23 @@ def c_shapes(ctx, case):
     dlw = np.asarray(g.log_weighted_likelihood(dX).compute())
     ctx.close(dlw, np.asarray(g.log_weighted_likelihood(X)), "dask vs numpy weighted ll", rtol=1e-12, atol=1e-12)
     ctx.finite(dl, "dask log_likelihood")
+    # two machines score the SAME Dask array and the lazy results are evaluated together (a log-likelihood ratio):
+    # each result belongs to its own machine
+    import dask
+
+    p2 = dict(p, means=np.array(p["means"]) + 0.7 * np.sqrt(np.array(p["variances"])), weights=np.array(p["weights"])[::-1].copy())
+    g2 = sut.make_gmm(p2)
+    want2 = ref.gmm_logpdf(X, p2["weights"], p2["means"], p2["variances"])
+    a, b = dask.compute(g.log_likelihood(dX), g2.log_likelihood(dX))
+    ctx.close(np.asarray(a), want, "first machine's ll when two machines score one Dask array together", rtol=1e-10, atol=1e-9)
+    ctx.close(np.asarray(b), want2, "second machine's ll when two machines score one Dask array together", rtol=1e-10, atol=1e-9)
+    ratio = np.asarray((g2.log_likelihood(dX) - g.log_likelihood(dX)).compute())
+    ctx.close(ratio, want2 - want, "lazy log-likelihood ratio of two machines on one Dask array", rtol=1e-9,
+              atol=1e-9 * (1 + float(np.abs(want).max())))
+    sa, sb = g.acc_stats(dX), g2.acc_stats(dX)
+    la, lb = dask.compute(sa.log_likelihood, sb.log_likelihood)
+    ctx.close(float(la), want.sum(), "first machine's statistics total (two machines, one Dask array)", rtol=1e-10, atol=1e-9 * len(X))
+    ctx.close(float(lb), want2.sum(), "second machine's statistics total (two machines, one Dask array)", rtol=1e-10, atol=1e-9 * len(X))
 
 
 def g_integral(draw):
